@@ -313,36 +313,9 @@ func checkC17(P *Program, r *Result, tier string) {
 	if nret < 40 {
 		r.fatal("expected at least 40 error returns in the in-memory decoders, found %d", nret)
 	}
-	// VERSION-FIRST
-	for _, typ := range []string{"BinaryProtocol"} {
-		fn := P.Method(relThrift, typ, "ReadMessageBegin")
-		if fn == nil {
-			continue
-		}
-		fa := A.fa(fn)
-		buf := fa.sliceDesc(fn.Params[1])
-		found := false
-		for _, b := range fn.Blocks {
-			iff, ok := b.Instrs[len(b.Instrs)-1].(*ssa.If)
-			if !ok {
-				continue
-			}
-			if cls, _ := causeClassOfCond(iff.Cond); cls != "VERSION" {
-				continue
-			}
-			found = true
-			g := fa.gamma(b)
-			// the test must be reachable with exactly 4 bytes: Γ ∧ len(buf) ≤ 4 satisfiable, and Γ ⊢ len ≥ 4
-			cons := append(append([]*Lin{}, g.ineq...), ineqLE(buf.Len, linConst(4)), ineqGE(buf.Len, linConst(0)))
-			un, okU := unsat(cons)
-			reach := okU && !un
-			atLeast := fa.prove(ineqGE(buf.Len, linConst(4)), b, rootCtx)
-			r.add("VERSION-FIRST", shortName(fn), "test", "the version word is checked whenever ≥ 4 bytes are present (before any further length requirement)", P.pos(instrPos(iff)), reach && atLeast, "")
-		}
-		if !found {
-			r.add("VERSION-FIRST", shortName(fn), "test", "a strict-version mask test exists", P.pos(fn.Pos()), false, "")
-		}
-	}
+	versionFirstRule(P, r, A)
+	// the wrapper itself keeps the source error reachable
+	wrapHelperRule(P, r, relThrift)
 	// WRAP-SOURCE
 	var wrappers []*ssa.Function
 	brMethods := P.methodsNamed(relThrift, "BufferReader", func(string) bool { return true })
@@ -489,4 +462,39 @@ func causeClassOfCond(cond ssa.Value) (string, bool) {
 func init() {
 	register("C16", "other", checkC16)
 	register("C17", "other", checkC17)
+}
+
+// versionFirstRule: the buffer reader examines the version word as soon as 4
+// bytes are present (shared by C17 and C12).
+func versionFirstRule(P *Program, r *Result, A *Analysis) {
+	// VERSION-FIRST
+	for _, typ := range []string{"BinaryProtocol"} {
+		fn := P.Method(relThrift, typ, "ReadMessageBegin")
+		if fn == nil {
+			continue
+		}
+		fa := A.fa(fn)
+		buf := fa.sliceDesc(fn.Params[1])
+		found := false
+		for _, b := range fn.Blocks {
+			iff, ok := b.Instrs[len(b.Instrs)-1].(*ssa.If)
+			if !ok {
+				continue
+			}
+			if cls, _ := causeClassOfCond(iff.Cond); cls != "VERSION" {
+				continue
+			}
+			found = true
+			g := fa.gamma(b)
+			// the test must be reachable with exactly 4 bytes: Γ ∧ len(buf) ≤ 4 satisfiable, and Γ ⊢ len ≥ 4
+			cons := append(append([]*Lin{}, g.ineq...), ineqLE(buf.Len, linConst(4)), ineqGE(buf.Len, linConst(0)))
+			un, okU := unsat(cons)
+			reach := okU && !un
+			atLeast := fa.prove(ineqGE(buf.Len, linConst(4)), b, rootCtx)
+			r.add("VERSION-FIRST", shortName(fn), "test", "the version word is checked whenever ≥ 4 bytes are present (before any further length requirement)", P.pos(instrPos(iff)), reach && atLeast, "")
+		}
+		if !found {
+			r.add("VERSION-FIRST", shortName(fn), "test", "a strict-version mask test exists", P.pos(fn.Pos()), false, "")
+		}
+	}
 }
